@@ -258,6 +258,7 @@ Definition mp4_read_full (g : list Z) (p n : Z) : result (list Z) :=
 
 Definition mp4_update_table (w : nat) (delta offset : Z) (g : list Z) (a : mp4_atom) : result (list Z) :=
   let ao := mp4_moved offset delta (ma_off a) in
+  if ma_len a <? 16 then Raise EMutagen else          (* "truncated atom" *)
   match mp4_read_full g (ao + 12) (ma_len a - 12) with
   | Raise e => Raise e
   | Ok data =>
@@ -273,6 +274,7 @@ Definition mp4_update_table (w : nat) (delta offset : Z) (g : list Z) (a : mp4_a
 
 Definition mp4_update_tfhd (delta offset : Z) (g : list Z) (a : mp4_atom) : result (list Z) :=
   let ao := mp4_moved offset delta (ma_off a) in
+  if ma_len a <? 12 then Raise EMutagen else          (* "truncated atom" *)
   match mp4_read_full g (ao + 9) (ma_len a - 9) with
   | Raise e => Raise e
   | Ok data =>
